@@ -60,7 +60,7 @@ def gen_cases(ctx):
         r = ctx.rng.random()
         opts = {}
         if r < 0.12:
-            opts = {"nested_underscore": 0.5, "nested_tagskip": 0.2}   # finding region shapes
+            opts = {"nested_underscore": 0.5, "nested_tagskip": 0.2}   # left-out nested fields (repaired by 63e9f41; asserted)
         elif r < 0.2:
             opts = {"keyword": 0.5}
         if r > 0.93:
